@@ -16,10 +16,10 @@ import shutil
 import time
 from concurrent.futures import ThreadPoolExecutor
 
-from common import (CACHE, CRATE, KANI_DIR, KANI_FEATURES, REPO, Lock, log, run)
+from common import (CACHE, CRATE, KANI_DIR, KANI_FEATURES, REPO, Lock, log, run, sha256_text)
 
-TARGET = os.path.join(CACHE, "kani-target")
-PLAYBACK_TARGET = os.path.join(CACHE, "kani-playback")
+TARGET = os.environ.get("VERIF_KANI_TARGET", os.path.join(CACHE, "kani-target"))
+PLAYBACK_TARGET = os.environ.get("VERIF_KANI_PLAYBACK_TARGET", os.path.join(CACHE, "kani-playback"))
 OUT_GLOB = os.path.join(TARGET, "kani", "x86_64-unknown-linux-gnu", "debug", "build", "rs-matter", "*", "out",
                         "*.kani-metadata.json")
 
@@ -44,7 +44,7 @@ def kani_env():
 
 def build(timeout=3600):
     """Compile /repo's working tree with every harness. Returns dict(ok, seconds, log, harnesses)."""
-    with Lock("kani-build"):
+    with Lock("kani-build-" + sha256_text(TARGET)[:8]):
         t0 = time.time()
         rc, out, err, secs = run(["cargo", "kani"] + BUILD_ARGS, cwd=CRATE, env=kani_env(), timeout=timeout)
         text = out + "\n" + err
